@@ -15,6 +15,7 @@ import (
 	"encoding/hex"
 	"encoding/json"
 	"fmt"
+	"google.golang.org/protobuf/proto"
 	"os"
 	"os/exec"
 	"path/filepath"
@@ -192,9 +193,16 @@ func enginePurity(ctx *engineCtx) {
 
 	// ---------------- realtime histories ----------------
 	var cases []string
+	var clockDeadline int64 // the latest "near future" instant written into a clock-sensitive message
 	for i := 0; i < nRT; i++ {
 		kind := g.r.Intn(4) // 0: nil Extension slot, 1: nycttrips, 2: nyctalerts, 3: explicit NoExtension
+		if i < 3 {
+			kind = 1
+		}
 		cfg := g.extCfg(kind % 3)
+		if i < 3 {
+			cfg.filterStale = true
+		}
 		nilExt := kind == 0
 		var ext extensions.Extension
 		if kind == 3 {
@@ -208,6 +216,18 @@ func enginePurity(ctx *engineCtx) {
 		var msgs [][]byte
 		for k := 0; k < nCalls; k++ {
 			switch {
+			case i < 3 && k == 0:
+				// a message whose meaning must not depend on WHEN it is parsed: no header timestamp, an unassigned NYCT trip whose first
+				// stop lies a few seconds in the future of this run's clock; the other processes parse it after that instant
+				soon := time.Now().Unix() + 3 + int64(g.r.Intn(3))
+				if soon > clockDeadline {
+					clockDeadline = soon
+				}
+				td := &gtfsrt.TripDescriptor{TripId: ptr(fmt.Sprintf("%06d_L..N", 60000+i)), RouteId: ptr("L"), StartDate: ptr("20231114")}
+				proto.SetExtension(td, gtfsrt.E_NyctTripDescriptor, &gtfsrt.NyctTripDescriptor{TrainId: ptr("0L 1118"), IsAssigned: ptr(false), Direction: gtfsrt.NyctTripDescriptor_NORTH.Enum()})
+				cm := &gtfsrt.FeedMessage{Header: &gtfsrt.FeedHeader{GtfsRealtimeVersion: ptr("2.0")}, Entity: []*gtfsrt.FeedEntity{{Id: ptr("clock"), TripUpdate: &gtfsrt.TripUpdate{Trip: td,
+					StopTimeUpdate: []*gtfsrt.TripUpdate_StopTimeUpdate{{StopId: ptr("L01N"), Departure: &gtfsrt.TripUpdate_StopTimeEvent{Time: ptr(soon)}}}}}}}
+				msgs = append(msgs, marshal(cm))
 			case k > 0 && g.coin(0.35):
 				msgs = append(msgs, append([]byte{}, msgs[g.r.Intn(len(msgs))]...)) // the same feed again
 			case g.coin(0.08):
@@ -444,6 +464,9 @@ func enginePurity(ctx *engineCtx) {
 	}
 
 	// ---------------- other processes, reverse order ----------------
+	if w := clockDeadline + 1 - time.Now().Unix(); w > 0 && w < 10 {
+		time.Sleep(time.Duration(w) * time.Second) // the re-parses happen after the "near future" of the clock-sensitive messages
+	}
 	ib, _ := json.Marshal(items)
 	os.WriteFile(filepath.Join(tmp, "items.json"), ib, 0o644)
 	self, _ := os.Executable()
